@@ -247,6 +247,55 @@ def run_prior_scenario(job):
   return rec
 
 
+
+def run_parallel_scenario(job):
+  """A parallel acquisition (n_parallel = 2: one score per PAIR of points) seeded with priors whose number is not a
+  multiple of 2 and whose arrays carry trial padding: no padding row may be scored as a prior or returned."""
+  sc, seed = job
+  import jax
+  import jax.numpy as jnp
+  from vizier import pyvizier as vz
+  from vizier._src.algorithms.optimizers import eagle_strategy as es
+  from vizier._src.algorithms.optimizers import vectorized_base as vb
+  from vizier.pyvizier import converters
+  from vizier.pyvizier.converters import padding
+  rng = random.Random(seed)
+  nc, ncat = 2, 3
+  problem = vz.ProblemStatement()
+  for j in range(nc):
+    problem.search_space.root.add_float_param('x%d' % j, 0.0, 1.0)
+  problem.search_space.root.add_categorical_param('c0', ['a', 'b', 'c'])
+  problem.metric_information.append(vz.MetricInformation('m', goal=vz.ObjectiveMetricGoal.MAXIMIZE))
+  kw = {'padding_schedule': padding.PaddingSchedule(num_trials=padding.PaddingType.POWERS_OF_2)} if sc['pad_trials'] else {}
+  conv = converters.TrialToModelInputConverter.from_problem(problem, **kw)
+  trials = [vz.Trial(parameters={'x0': rng.randrange(1, 63) / 64.0, 'x1': rng.randrange(1, 63) / 64.0, 'c0': rng.choice('abc')}) for _ in range(sc['n_priors'])]
+  prior = conv.to_features(trials)
+  seen_bad = []
+
+  def score(x, seed=None):
+    c = x.continuous.padded_array
+    k = x.categorical.padded_array
+    bad = jnp.any(jnp.isnan(c)) | jnp.any(k[..., :1] < 0) | jnp.any(k[..., :1] >= ncat)
+    seen_bad.append(bool(bad))
+    member = jnp.nan_to_num(1.0 - jnp.abs(c[..., 0] - 0.3) + 0.1 * k[..., 0])
+    return jnp.sum(member, axis=-1) if member.ndim == 2 else member
+
+  rec = {'scenario': sc, 'refused': False}
+  try:
+    opt = vb.VectorizedOptimizerFactory(strategy_factory=es.VectorizedEagleStrategyFactory(), max_evaluations=40, suggestion_batch_size=5, use_fori=False)(converter=conv)
+    res = opt(score, count=sc['count'], prior_features=prior, n_parallel=2, seed=jax.random.PRNGKey(seed % 1000))
+  except Exception as e:  # pylint: disable=broad-except
+    rec['refused'] = True
+    rec['error'] = '%s: %s' % (type(e).__name__, str(e)[:200])
+    return rec
+  cont = np.asarray(res.features.continuous)
+  cat = np.asarray(res.features.categorical)
+  rec['shape_ok'] = cont.shape[:2] == (sc['count'], 2) and cat.shape[:2] == (sc['count'], 2)
+  rec['in_bounds'] = bool(np.all(cont[..., :nc] >= 0.0) and np.all(cont[..., :nc] <= 1.0) and np.all(cat[..., :1] >= 0) and np.all(cat[..., :1] < ncat))
+  rec['scored_a_padding_row'] = any(seen_bad)
+  return rec
+
+
 def prior_scenarios(ctx, rng):
   import concurrent.futures as cf
   import multiprocessing
@@ -284,8 +333,20 @@ def prior_scenarios(ctx, rng):
       ctx.violation({'via': 'vecopt-priors', 'verdict': v, 'strategy': 'eagle', 'best_prior_is': sc['best'], 'prior_out_of_bounds': sc['oob']},
                     {'kind': 'vecopt-priors', 'scenario': sc, 'pool_size': r.get('pool'), 'n_priors': r.get('n_priors'), 'budget': r.get('budget'),
                      'rewards': r.get('rewards'), 'best_prior_score': r.get('best_prior'), 'error': r.get('error')})
-  ctx.log('  %d eagle prior scenarios; verdicts %s' % (len(out), dict(counts)))
-  return {'scenarios': len(out), 'verdicts': dict(counts)}
+  # parallel acquisitions with priors
+  pjobs = [(dict(n_priors=n, pad_trials=pad, count=2), rng.randrange(10 ** 9)) for n in ((5, 11, 4) if not ctx.thorough else (3, 4, 5, 6, 7, 10, 11)) for pad in (True, False)]
+  with cf.ProcessPoolExecutor(max_workers=8, mp_context=multiprocessing.get_context('spawn')) as ex:
+    pout = list(ex.map(run_parallel_scenario, pjobs))
+  for r in pout:
+    sc = r['scenario']
+    # (padding rows of the prior array may be SCORED - the result is masked - but must never be returned)
+    v = 'refused' if r['refused'] else 'wrong_shape' if not r['shape_ok'] else 'out_of_bounds' if not r['in_bounds'] else 'ok'
+    counts['parallel:' + v] += 1
+    if v != 'ok':
+      ctx.violation({'via': 'vecopt-parallel', 'verdict': v, 'strategy': 'eagle', 'n_priors': sc['n_priors'], 'trial_padding': sc['pad_trials']},
+                    {'kind': 'vecopt-parallel', 'scenario': sc, 'error': r.get('error')})
+  ctx.log('  %d eagle prior scenarios, %d parallel-acquisition scenarios; verdicts %s' % (len(out), len(pout), dict(counts)))
+  return {'scenarios': len(out) + len(pout), 'verdicts': dict(counts)}
 
 
 def _observe_job(job):
